@@ -10,7 +10,8 @@
         division by 2 and 3, an ordinary tag, anonymous edges, overlaps 1M (twins 2M)
      2  names A*2 B A*3 D (copy naming must step over used *n names), segment 2
         without sequence, overlaps `*` and 1M mixed, other count values
-     3  as 1 but every edge carries an identifier (GFA1 ID tag, GFA2 edge name)
+     3  as 1 but every edge carries an identifier (GFA1 ID tag, GFA2 edge name);
+        only graphs with at most one dovetail
    Containment options: none; A contains B; C contains B (reversed) and A
    contains C; two parallel containments of B in A.
    The argument catalogue (printed once as ARGS) is
@@ -76,6 +77,7 @@ ContRecs(p, c) == LET r == ContCat(p)[c + 1] IN
 
 Init == prof \in Profiles /\ sel = <<>> /\ cont \in ContOptions
 Next == /\ Len(sel) < MaxLinks
+        /\ prof = 3 => Len(sel) < 1        \* identified edges: graphs with at most one dovetail
         /\ \E q \in DOMAIN Cat :
              /\ (IF sel = <<>> THEN TRUE ELSE q > sel[Len(sel)])
              /\ Cat[q].twin = 1 => \E k \in DOMAIN sel : sel[k] = OrigOf(q)
